@@ -8,6 +8,8 @@ CONSTANTS AllFlagCombos   \* FALSE: default, -k, -f, -c, --no-sync, --files;  TR
 OneFlag(c) == Cardinality({x \in {"keep", "force", "stdout", "nosync", "files"} : c[x]}) <= 1
 Wanted(c) == /\ AllFlagCombos \/ OneFlag(c)
              /\ c.nf = 2 => ~c.pre[2]                      \* symmetric to pre[1]
+             \* quick tier: two files only without flags or with --files, bad input as first of the two
+             /\ (c.nf = 2 /\ ~AllFlagCombos) => (c.input[2] = "good" /\ ~c.keep /\ ~c.force /\ ~c.stdout /\ ~c.nosync)
 MCCfgs == {c \in Cfgs({1, 2}, Kinds) : Wanted(c)}
 
 MCInit == \E c \in MCCfgs : InitWith(c)
